@@ -22,7 +22,7 @@ TRUSTED = ["translators/fw/consts.py + harness TestConsts (values reported by th
            "verif hooks fw/fw/zz_verif_fw.go, fw/table/zz_verif_fw.go, fw/face/zz_verif_fw.go, std/utils/priority_queue/zz_verif_fw.go", "go1.26 toolchain (synctest)"]
 
 RULE = ("one evaluation = one generated history (1-4 forwarding threads; setup of 2-6 faces of mixed scope/link type, FIB, strategy choice, CS flags; then 20-45 events: Interests, Data, "
-        "sleeps, per-thread PIT update ticks and dead-nonce sweeps, FIB/strategy/face/CS changes) executed on real fw.Thread objects behind the real link-service dispatch; after every event the sends recorded on the fake faces "
+        "sleeps, per-thread PIT update ticks and dead-nonce sweeps, FIB/strategy/face/CS changes) executed on real fw.Thread objects behind the real link-service dispatch (three in five single-thread histories with the production Thread.Run goroutine as the driver, its PIT update timer and dead-nonce ticker firing by themselves in virtual time; the others step by step through hooks); after every event the sends recorded on the fake faces "
         "and the dumped PIT/CS/dead-nonce state of every thread are compared with the extracted model and the property's spec oracle is evaluated on the implementation's observation; "
         "non-trivial = at least 3 operation kinds and at least one send or PIT entry; distinct by MD5 of the operation list")
 
